@@ -45,6 +45,7 @@ type SetGenOpts struct {
 	AllowClass  bool     // phases may be delegated (class default)
 	Classes     []string // classes to draw from when delegated
 	AllowSliced bool
+	AllowCluster bool
 	PoolSize    int
 	CPs         []string
 	ChainBias   bool // later sets usually declare all earlier ones as previous
